@@ -61,6 +61,19 @@ def oracle_identities(ca, ga=()):
                 return f"{name} = {r} wrong on {v.text}"
     return None
 
+def judge_pair(a, b):
+    c = VC.case_of(a, b)
+    if isinstance(c.ca, Exception) or isinstance(c.cb, Exception): return None
+    if any(v.is_local() for v in I.bounds_of(c.ca) + I.bounds_of(c.cb)): return None
+    results = {}
+    for op in VC.OPS3:
+        try: results[op] = getattr(c.ca, op)(c.cb)
+        except Exception as e: results[op] = e  # noqa
+    bounds = I.mentioned_bounds(c.ca, c.ga) + I.mentioned_bounds(c.cb, c.gb)
+    for r in results.values():
+        if not isinstance(r, Exception): bounds += I.bounds_of(r)
+    return oracle_pair(c, results, I.critical_probes(bounds)) or oracle_identities(c.ca, c.ga)
+
 def run_pairs(R, cases, M, judge=True):
     reqs, idx = [], []
     for ci, c in enumerate(cases):
@@ -131,7 +144,8 @@ def run(tier):
             d = oracle_identities(c.ca, c.ga)
             if d: R.fail(dict(a=c.a, identities=True), d)
     M.close()
-    return R.finish(VC.TRUSTED, VC.ASSUME, RULE, "make -C coq Properties/C05.vo && coqc Properties/C05.v (Print Assumptions)")
+    return R.finish(VC.TRUSTED, VC.ASSUME, RULE, "make -C coq Properties/C05.vo && coqc Properties/C05.v (Print Assumptions)",
+                    search=VC.make_search(judge_pair, VC.fresh_pairs(2000 if tier == "quick" else 20000)))
 
 def replay(rep):
     c = VC.Case(); case = rep["case"]
